@@ -470,3 +470,54 @@ func funcLitsIn(n ast.Node) []*ast.FuncLit {
 }
 
 var _ = token.NoPos
+
+// errorEdgeDiverges: cond is `e != nil` or `e == nil` and ends a block of the graph.  The edge
+// on which e is non-nil must lead somewhere else than the edge on which it is nil: the return
+// statements reachable from the two edges are disjoint (a panic reaches none).  A test whose
+// two outcomes meet again before the same return rejects nothing.
+func (g *FG) errorEdgeDiverges(cond *ast.BinaryExpr) bool {
+	for _, b := range g.order {
+		if len(b.Succs) != 2 || len(b.Nodes) == 0 {
+			continue
+		}
+		last, ok := b.Nodes[len(b.Nodes)-1].(ast.Expr)
+		if !ok || ast.Unparen(last) != ast.Expr(cond) {
+			continue
+		}
+		errEdge, okEdge := b.Succs[0], b.Succs[1] // != : true edge is the failing one
+		if cond.Op == token.EQL {
+			errEdge, okEdge = okEdge, errEdge
+		}
+		reach := func(from *cfg.Block) map[ast.Node]bool {
+			out := map[ast.Node]bool{}
+			seen := map[*cfg.Block]bool{}
+			work := []*cfg.Block{from}
+			for len(work) > 0 {
+				x := work[len(work)-1]
+				work = work[:len(work)-1]
+				if seen[x] {
+					continue
+				}
+				seen[x] = true
+				for _, n := range x.Nodes {
+					if rs, ok := n.(*ast.ReturnStmt); ok {
+						out[rs] = true
+					}
+				}
+				if len(x.Succs) == 0 && g.exitKind(x) == exitReturn && len(x.Nodes) == 0 {
+					out[nil] = true
+				}
+				work = append(work, x.Succs...)
+			}
+			return out
+		}
+		re, ro := reach(errEdge), reach(okEdge)
+		for n := range re {
+			if ro[n] {
+				return false
+			}
+		}
+		return true
+	}
+	return true // not a branch condition of this graph (part of a larger expression): keep the old reading
+}
